@@ -119,8 +119,10 @@ def sparql_service_available(endpoint: str) -> bool:
 def _handle_part(part: str) -> tuple[str, float]:
     # optional whitespace is allowed around "," and ";", see RFC 7231 section 5.3
     key, *parameters = (piece.strip() for piece in part.split(";"))
+    # media types and parameter names are case-insensitive, see RFC 7231 section 3.1.1.1
+    key = key.lower()
     for parameter in parameters:
-        if parameter.startswith("q="):
+        if parameter.lower().startswith("q="):
             return key, float(parameter[len("q=") :])
     return key, 1.0
 
